@@ -1,4 +1,4 @@
-CONSTANT CertIds = {"A", "W", "AB", "Ar", "Ax", "IP"}
+CONSTANT CertIds = {"A", "W", "AB", "Ar", "Ax", "IP", "AU"}
 CONSTANT Certs3 = {}
 CONSTANT Topos = {"one", "dir", "two", "cross", "wild", "plain", "ip", "dflt", "self", "keys", "dup", "selfcatch", "missingdir", "badpair", "bad-certonly", "bad-garbage", "bad-unknown"}
 CONSTANT ReloadTopos = {"one", "cross"}
